@@ -1425,7 +1425,15 @@ static int ex_exec(char *ln)
 /* execute a single ex command */
 int ex_command(char *ln)
 {
-	int ret = ex_exec(ln);
+	static int depth;	/* :so and :@ nest through here */
+	int ret = 1;
+	if (depth < 32) {
+		depth++;
+		ret = ex_exec(ln);
+		depth--;
+	} else {
+		ex_show("command nesting too deep");
+	}
 	lbuf_modified(xb);
 	return ret;
 }
